@@ -20,6 +20,31 @@ from rules.shared_panic import panic_rule, is_write_root
 FLAGS = ("writing_to_file", "writing_to_extra_field", "writing_to_central_extra_field_only", "writing_raw")
 
 
+
+def _size_gt_remaining(p):
+    """`size > data.len()` where the length is taken AFTER the record header was consumed (the slice has advanced past id and size):
+    the same test as `size > left - 4` with `left` taken before the two reads.  The expression engine does not see the advance of the
+    `&mut &[u8]`, so the order is read off the path: the length whose value is compared comes after the two header reads."""
+    for i, (a, v) in enumerate(p["decisions"]):
+        if v == 1 and re.search(r"^Gt\(.*ReadBytesExt::read_u16.*?\)\)*,? ?(slice::)?len\(", a) and "Sub(" not in a.split("len(")[0]:
+            dp = p["dpos"][i]
+            effs = [(ep, e[1].split("::")[-1]) for e, ep in zip(p["effects"], p["epos"]) if ep <= dp]
+            lens = [k for k, (ep, n) in enumerate(effs) if n == "len"]
+            if not lens:
+                continue
+            before = [n for ep, n in effs[:lens[-1]]]
+            after = [n for ep, n in effs[lens[-1] + 1:]]
+            # the two header reads of this record precede the length; nothing is read between the length and the comparison
+            k = len(before) - 1
+            reads = 0
+            while k >= 0 and before[k] != "len":
+                reads += before[k] == "read_u16"
+                k -= 1
+            if reads >= 2 and "read_u16" not in after:
+                return True
+    return False
+
+
 def _flag_assigns(f, flag):
     out = []
     for bi, si, s in f.stmts():
@@ -331,7 +356,7 @@ def misuse_rules(facts, rep):
         "too-long": row(lambda p: decided(p, r"^Gt\(.*len\(.*, 65535\)") == 1),
         "truncated-header": row(lambda p: decided(p, r"^Lt\(.*len\(.*, 4\)") == 1),
         "zip64-id": row(lambda p: any(re.search(r"^ok\(ReadBytesExt::read_u16", a) and v == 1 for a, v in p["decisions"])),
-        "size-exceeds": row(lambda p: decided(p, r"^Gt\(\(ok\(ReadBytesExt::read_u16.* as usize\), Sub\(") == 1),
+        "size-exceeds": row(lambda p: decided(p, r"^Gt\(\(ok\(ReadBytesExt::read_u16.* as usize\), Sub\(") == 1 or _size_gt_remaining(p)),
     }
     if "unreserved" not in facts.features:
         rows["reserved-low"] = row(lambda p: decided(p, r"^Le\(ok\(ReadBytesExt::read_u16.*, 31\)") == 1)
@@ -471,6 +496,9 @@ def run(ctx, rep):
     panic_rule(ctx, rep, "C12-PANIC", facts, is_write_root, void_rules=void)
     rep.floor("C12-PANIC", 60)
     rep.assume("sequences using the experimental encryption option beyond start_file+write are outside the property's quantifier (DESIGN.md O7)")
+    from rules.shared_refusals import write_refusals
+    write_refusals(ctx, facts, rep)    # C12-REFUSALS: misuse is refused where it was; legal sequences are refused nowhere new
+    rep.floor("C12-REFUSALS", 14)
     if ctx.tier == "thorough":
         from rules.shared_panic import thorough_configs
         thorough_configs(ctx, rep, "C12-PANIC", is_write_root, void)
